@@ -334,6 +334,10 @@ func TestP2PSyncRobust(t *testing.T) {
 			v := vs[next+i]
 			results[strings.SplitN(r, ":", 2)[0]]++
 			switch {
+			case strings.HasPrefix(r, "good-differs") && uncommitted[v.Part].MatchString(v.Path):
+				// a field nothing commits to (see TestP2PSyncLimits): stored as the peer sent it
+				results["planted"]++
+				results["good-differs"]--
 			case strings.HasPrefix(r, "good-differs"), r == "good-unstorable":
 				out.Diverge(vh.Divergence{Key: "p2psync:malformed-accepted:" + shapeKey(v.Part, v.Path),
 					What:  "an answer with " + v.String() + " passed verification but is not the source's block: " + r,
